@@ -220,9 +220,18 @@ class Scheduler:
         elif nxt is not me:
             self.current = nxt
             nxt.go.release()
-            me.go.acquire()
+            self._park(me)
             self._woken(me)
         me.pending = None
+
+    BATON_TIMEOUT = 300.0  # real seconds; only ever expires if the harness itself is broken
+
+    def _park(self, me: _T):
+        """Block until this thread is handed the baton."""
+        if not me.go.acquire(timeout=self.BATON_TIMEOUT):
+            if me is self.main:
+                raise HarnessError("scheduler lost the baton: no managed thread handed control back")
+            raise SchedAbort()
 
     def _woken(self, me: _T):
         if self.aborting and me is not self.main:
@@ -297,7 +306,7 @@ class Scheduler:
             me.pending = ("yield", None, None)
             self.current = t
             t.go.release()
-            me.go.acquire()
+            self._park(me)
             self._woken(me)
             me.pending = None
 
